@@ -195,6 +195,13 @@ func integerDivide(x, y any) (any, error) {
 			return nil, ErrNotANumber
 		}
 
+		// The division is rounded: an exact quotient just below an integer
+		// can round up to it. The remainder x - r*y (computed with a single
+		// rounding, so its sign is exact) then has the opposite sign of x.
+		if rem := math.FMA(-r, yf, xf); r != 0 && rem != 0 && math.Signbit(rem) != math.Signbit(xf) {
+			r -= math.Copysign(1, r)
+		}
+
 		return r, nil
 	}
 
